@@ -48,6 +48,9 @@ GROUP: Dict[str, str] = {
     # round 2: options
     **{t: "Proofs/SrcTieOptP.v" for t in ("Options_get", "Options_items", "OptionsValidator_validate_can_add_to_group",
                                           "Options_add_to_group", "Options_add", "Features_merge_options")},
+    **{t: "Proofs/SrcTieUpdP.v" for t in ("OptionsValidator_validate_no_group_context_conflicts",
+                                          "OptionsValidator_validate_no_context_group_conflicts",
+                                          "Options_update_with_protected_keys")},
 }
 # lemma -> target, to name the first lemma coqc stopped at
 LEMMA_TARGET = {
@@ -91,6 +94,12 @@ LEMMA_TARGET = {
     "options_add_to_group_src": "Options_add_to_group", "options_add_src": "Options_add",
     **{l: "Features_merge_options" for l in ("kmem_union1", "merge_loop2_src", "merge_loop1_src", "merge_conflict_ext",
                                              "merge_options_src", "merge_options_model")},
+    "inter_nonempty": "OptionsValidator_validate_no_group_context_conflicts",
+    "validate_no_group_context_conflicts_src": "OptionsValidator_validate_no_group_context_conflicts",
+    "validate_no_context_group_conflicts_src": "OptionsValidator_validate_no_context_group_conflicts",
+    **{l: "Options_update_with_protected_keys" for l in (
+        "kmem_union_single", "update_loop1_src", "dict_del_filter", "update_loop2_src", "py_dict_update_dupdate",
+        "update_loop3_src", "update_with_protected_keys_src", "merge_options_full")},
 }
 
 TRUSTED = [
@@ -378,6 +387,33 @@ def _space_opt(target: str) -> Dict[str, Any]:
                     for a in ("absent", 1, 2, True) for b in ("absent", 2) for ch in ("absent", ["L", ["a"]], ["L", ["b"]])
                     for c, p in (("absent", []), (2, []), (2, ["c"]))]
         cases = [{"init": pa, "ops": [{"op": "merge", "other": ch}]} for pa in parents for ch in children]
+    elif target == "Options_update_with_protected_keys":
+        selfs = [{"g": opts(("a", a), (CH, ch)), "c": opts(("c", c), ("b", b)), "p": []}
+                 for a in ("absent", 1) for ch in ("absent", ["L", ["a"]], ["S", ["a", "b"]], 5, "ab")
+                 for c in ("absent", 1) for b in ("absent", 7)]
+        others = [{"g": opts(("a", a), ("b", b), ("in_features", i)), "c": opts(("c", c), ("d", d)), "p": p}
+                  for a in ("absent", 2) for b in ("absent", 3) for i in ("absent", "x")
+                  for c, d, p in (("absent", "absent", []), (2, "absent", ["c"]), (1, 4, ["c", "d"]), (2, 4, ["d"]))]
+        prots = [None, [], ["a"], ["b", "c"]]
+        cases = [{"init": si, "ops": [{"op": "update", "other": o, "prot": pr}]} for si in selfs for o in others for pr in prots]
+    elif target in ("OptionsValidator_validate_no_group_context_conflicts", "OptionsValidator_validate_no_context_group_conflicts"):
+        from mloda.core.abstract_plugins.components.validators.options_validator import OptionsValidator
+        fn = target[len("OptionsValidator_"):]
+        pool = ["a", "b", 1, True]
+        sets = [[pool[j] for j in range(4) if m >> j & 1 and not (j == 3 and m >> 2 & 1)] for m in range(16)]
+
+        def real_conf(i: dict) -> Any:
+            try:
+                getattr(OptionsValidator, fn)({c15.to_py(k) for k in i["a"]}, {c15.to_py(k) for k in i["b"]})
+                return False
+            except ValueError:
+                return True
+        ty = "(list pykey * list pykey) * option bool"
+        return {"inputs": [{"a": a, "b": b} for a in sets for b in sets], "real": real_conf,
+                "term": lambda i, o: (f"(({cq_list(c15.key_term(c15.to_py(k)) for k in i['a'])}, "
+                                      f"{cq_list(c15.key_term(c15.to_py(k)) for k in i['b'])}), {_ob(o)})"),
+                "type": ty, "req": c15.REQ,
+                "defs": OB + f"Definition chk (c : {ty}) := ob (snd c) (existsb (fun k => kmem k (snd (fst c))) (fst (fst c)))."}
     elif target in ("Options_add", "Options_add_to_group", "OptionsValidator_validate_can_add_to_group"):
         op = "add" if target == "Options_add" else "add_group"
         inits = [{"g": opts(("a", a), ("b", b)), "c": opts(("c", c)), "p": []}
